@@ -153,6 +153,8 @@ def colwise_arith(F, mon):
                 continue
             for opname, fn in OPS.items():
                 rights = [("scalar " + repr(R), R, None) for R in scalars]
+                # a vector flagged as a ROW (v.T, as_row=True) is still a vector: no broadcasting across the columns
+                rights += [("row vector of 2 (= the column count)", Vector([1, 2]).T, None), ("row vector of 3 (= the row count)", Vector([1, 2, 3], as_row=True), None)]
                 rights += [("table of " + rk, None, rv) for rk, rv in (("int", [1, 2, 3]), ("int?", [2, None, 1]), ("str", ["x", "y", "z"]))]
                 for rname, R, rv in rights:
                     L = Table({"p": list(v1), "q": list(v2)})
@@ -413,6 +415,19 @@ def edge_tables(F, mon):
                 F.add("rectangular", case, {"cols": got, "len": len(r), "shape": r.shape, "rows": [list(x) for x in r]},
                       {"cols": expcols, "len": n, "shape": (n, len(expcols))})
             mon.see(r, label)
+        # the in-place spelling: t >>= cols leaves t a rectangular table with the new columns (or fails)
+        for label, addv, expcols in (("t >>= {a: [1,2,3], b: [4,5,6]}", {"a": [1, 2, 3], "b": [4, 5, 6]}, [[1, 2, 3], [4, 5, 6]]), ("t >>= Vector", Vector([1, 2, 3], name="a"), [[1, 2, 3]])):
+            def inplace():
+                t = mk0()
+                t >>= addv
+                return t
+            st, r, e = attempt(inplace)
+            ex += 1
+            if st == "ok" and isinstance(r, Table):
+                got = [list(c) for c in r.cols()]
+                n = len(expcols[0])
+                if got != expcols or len(r) != n or r.shape != (n, len(expcols)):
+                    F.add("rectangular", {"left": label0, "operation": label}, {"cols": got, "len": len(r), "shape": r.shape}, {"cols": expcols, "len": n})
         st, r, e = attempt(lambda: mk0() >> {"a": [1, 2, 3], "b": ["x"]})
         ex += 1
         if st == "ok" and isinstance(r, Table) and len({len(c) for c in r.cols()}) > 1:
